@@ -27,7 +27,7 @@ impl Typer {
     #[verifier::external_body] pub fn push_constraint(&mut self, c: Constraint) ensures final(self).constraints() == old(self).constraints().push(c), final(self).recorded() == old(self).recorded().insert(c) { unimplemented!() }
     #[verifier::external_body]
     pub fn infer_expr(&mut self, genv: &PackageTypeEnv, local_env: &mut LocalTypeEnv, diagnostics: &mut Diagnostics, e: ExprId) -> (r: Expr)
-        ensures inferred(e, r), elaborated(e, r), old(self).recorded().subset_of(final(self).recorded()),
+        ensures inferred(e, r), elaborated(e, r), old(self).recorded().subset_of(final(self).recorded()), final(diagnostics).errors() >= old(diagnostics).errors(),      // diagnostics only grow
     { unimplemented!() }
     #[verifier::external_body] pub fn fresh_ty_var(&mut self) -> (r: Ty) ensures final(self).constraints() == old(self).constraints(), final(self).recorded() == old(self).recorded() { unimplemented!() }
     #[verifier::external_body] pub fn error_expr(&mut self, astptr: Option<MySyntaxNodePtr>) -> (r: Expr) ensures final(self).constraints() == old(self).constraints(), final(self).recorded() == old(self).recorded(), !(r is ECall) { unimplemented!() }
@@ -237,3 +237,21 @@ pub open spec fn block_rule_ok(exprs: Seq<ExprId>, r: Expr, expected: Option<Ty>
     && (match expected { Some(t) => checked_as(exprs[exprs.len() - 1], t, a@[a@.len() - 1]), None => inferred(exprs[exprs.len() - 1], a@[a@.len() - 1]) })
 }
 pub open spec fn block_ok(exprs: Seq<ExprId>, r: Expr, expected: Option<Ty>) -> bool { if exprs.len() == 0 { unit_value(r) } else { block_rule_ok(exprs, r, expected) } }
+
+// ---- projections (U-INFERCTRL infer_proj_expr): error diagnostics are counted ----
+impl Diagnostics {
+    pub uninterp spec fn errors(&self) -> nat;
+    #[verifier::external_body] pub fn push(&mut self, d: Diagnostic) ensures final(self).errors() == old(self).errors() + 1 { unimplemented!() }      // only ever called with Severity::Error here (Diagnostic::new below)
+}
+pub enum Stage { Parser, Typer }
+pub enum Severity { Error, Warning }
+#[verifier::external_body] pub struct Diagnostic { _p: u64 }
+impl Diagnostic { #[verifier::external_body] pub fn new(stage: Stage, severity: Severity, message: String) -> (r: Diagnostic) requires severity is Error { unimplemented!() } }
+#[verifier::external_body] pub fn push_error(diagnostics: &mut Diagnostics, msg: String) ensures final(diagnostics).errors() == old(diagnostics).errors() + 1 { unimplemented!() }   // typer::util::push_error
+// `v.get(i).cloned()`: a copy of the i-th item, None out of range
+#[verifier::external_body] pub fn vec_get_cloned(v: &Vec<Ty>, i: usize) -> (r: Option<Ty>) ensures i < v@.len() ==> r == Some(v@[i as int]), i >= v@.len() ==> r is None { unimplemented!() }
+// projection `t.i`: the i-th component's type when t's (syntactic) type is a tuple type that has one; anything else is an error
+pub open spec fn proj_rule_ok(tuple: ExprId, index: usize, r: Expr, d0: nat, d1: nat) -> bool {
+    r matches Expr::EProj { tuple: t, index: i, ty } && inferred(tuple, *t) && i == index && d1 >= d0
+    && (match expr_ty(*t) { Ty::TTuple { typs } => if index < typs@.len() { ty == typs@[index as int] } else { d1 > d0 }, _ => d1 > d0 })
+}
